@@ -28,7 +28,7 @@ func init() {
 				"copy QueryLogEnabled and IPLogEnabled from the fields of the same name, and newRequestInfo re-initialises every " +
 				"field of the pooled request information on every path, so a request never inherits the previous request's profile.",
 			NotCovered: "JSON well-formedness of arbitrary field contents (encoding/json trusted); atomicity of O_APPEND writes in the kernel.",
-			Rules: map[string]string{"C15-RC": "class rules (error chains, shadowed results, character classes, crossed arguments, pool constructors, array pools, loop completeness, loop-carried buffers, replacing setters, complete clones, Grow arithmetic, pooled-buffer escape, sorted searches, fresh decode targets, per-iteration objects, whole-message copies, codec guards) over the packages this property rests on", "C15-R14": "profile lookups by linked / dedicated IP re-check the device's current address; isBlockedByAccess returns the profile's verdict (shared with C14-R4, C10-R1)", "C15-R13": "no named (non-error) result is hidden by a same-typed short variable declaration and then returned by name outside that scope (typed-AST rule over the whole repository)", "C15-R12": "no whole-struct copy of a dns.Msg (the copy shares Question and the RR slices with the logged request); pool constructors build fresh buffers", "C15-R11": "clone methods of filtering results copy every field (list and rule IDs are what gets logged)", "C15-R1": "recordQueryInfo gates and entry provenance", "C15-R2": "sole callers of log/billing sinks; record only after the write",
+			Rules: map[string]string{"C15-R15": "newDeviceFinder: the real finder exactly when the server group has profiles enabled", "C15-RC": "class rules (error chains, shadowed results, character classes, crossed arguments, pool constructors, array pools, loop completeness, loop-carried buffers, replacing setters, complete clones, Grow arithmetic, pooled-buffer escape, sorted searches, fresh decode targets, per-iteration objects, whole-message copies, codec guards) over the packages this property rests on", "C15-R14": "profile lookups by linked / dedicated IP re-check the device's current address; isBlockedByAccess returns the profile's verdict (shared with C14-R4, C10-R1)", "C15-R13": "no named (non-error) result is hidden by a same-typed short variable declaration and then returned by name outside that scope (typed-AST rule over the whole repository)", "C15-R12": "no whole-struct copy of a dns.Msg (the copy shares Question and the RR slices with the logged request); pool constructors build fresh buffers", "C15-R11": "clone methods of filtering results copy every field (list and rule IDs are what gets logged)", "C15-R1": "recordQueryInfo gates and entry provenance", "C15-R2": "sole callers of log/billing sinks; record only after the write",
 				"C15-R3": "single append write from the pooled buffer", "C15-R4": "result switches exhaustive", "C15-R5": "every field of the entry is written",
 				"C15-R6": "the logging opt-in flags are copied name-to-name by the backend and file-cache conversions; the recycled request-information object (which carries the profile attribution) is fully re-initialised"},
 		}})
@@ -82,6 +82,7 @@ func runC15(c *an.Ctx) {
 	c14Lookups(c, "C15-R14")
 	c.Borrow("C15-R14", runC10, func(o an.Obligation) bool { return o.Rule == "C10-R1" && strings.Contains(o.Key, "isBlockedByAccess") })
 	c.Floor("C15-R7", 1)
+	c15DeviceFinderGate(c)
 	mainPipeline(c, "C15-R7")
 	c.Floor("C15-R1", 1)
 	c.Floor("C15-R2", 3)
@@ -460,4 +461,39 @@ func checkSumSwitch(c *an.Ctx, rule, fnKey, iface string) {
 	} else {
 		c.Bad(rule, fnKey+" switch over "+iface, fn.Pos(), "the switch neither names %s nor panics on unknown results: such results are silently mapped to the default", strings.Join(missing, ", "))
 	}
+}
+
+
+// c15DeviceFinderGate: a server gets the real device finder exactly when its
+// server group has profiles enabled; the servers of a group without profiles
+// never attribute (and so never log or bill) a query.
+func c15DeviceFinderGate(c *an.Ctx) {
+	c.Floor("C15-R15", 1)
+	decide(c, "C15-R15", "dnssvc.newDeviceFinder", an.DecideCfg{
+		Dom: an.Domain{"p1.ProfilesEnabled": an.Bools},
+		OnCall: func(it *an.Interp, name string, args []an.AV) (an.AV, bool) {
+			switch {
+			case strings.HasSuffix(name, "devicefinder.NewDefault"):
+				return an.NonNil("finder"), true
+			case strings.HasSuffix(name, "slog.Logger).With"):
+				return an.NonNil("logger"), true
+			}
+			return an.AV{}, false
+		},
+		Expect: func(f an.Features, o an.AOutcome) string {
+			if len(o.Ret) != 1 {
+				return "a finder"
+			}
+			if f.B("p1.ProfilesEnabled") {
+				if o.Ret[0].String() != "nonnil:finder" {
+					return "the default finder for a group with profiles; got " + o.RetString()
+				}
+				return ""
+			}
+			if o.Ret[0].Dyn != "agd.EmptyDeviceFinder" {
+				return "the empty finder for a group without profiles, whatever the profile database is; got " + o.RetString() + " " + o.Ret[0].Dyn
+			}
+			return ""
+		},
+	})
 }
